@@ -53,8 +53,53 @@ type node struct {
 	hist []int
 }
 
-// Explore runs the BFS and reports violations into r. It returns coverage numbers.
+// ReplayOps re-executes one recorded history (the "op_ids" of a replay file) of search s, 5 times, and reports
+// what the oracle says; any difference between the runs is a harness error (nondeterminism).
+func (r *Run) ReplayOps(s Spec, ids []int) {
+	var first Outcome
+	for i := 0; i < 5; i++ {
+		o := s.Exec(ids)
+		if i == 0 {
+			first = o
+		} else if o.Err != first.Err || o.Key != first.Key {
+			Fatalf("%s: replay is nondeterministic: run 0 gave (%q,%q), run %d gave (%q,%q)", s.Name, first.Err, first.Key, i, o.Err, o.Key)
+		}
+	}
+	names := make([]string, len(ids))
+	for i, o := range ids {
+		names[i] = s.OpName(o)
+	}
+	fmt.Printf("replay %s: ops %v\n", s.Name, names)
+	if first.Err != "" {
+		r.Violation(first.Err, first.What, map[string]interface{}{"search": s.Name, "ops": names, "op_ids": ids})
+	}
+	for _, sv := range first.Soft {
+		r.Violation(sv[0], sv[1], map[string]interface{}{"search": s.Name, "ops": names, "op_ids": ids})
+	}
+}
+
+// ReplayRequest returns the recorded search name and op ids of the replay file, if this run is a replay.
+func (r *Run) ReplayRequest() (search string, ids []int, ok bool) {
+	if r.ReplayPath == "" {
+		return "", nil, false
+	}
+	var rep struct {
+		Search string `json:"search"`
+		OpIDs  []int  `json:"op_ids"`
+	}
+	r.LoadReplay(&rep)
+	return rep.Search, rep.OpIDs, true
+}
+
+// Explore runs the BFS and reports violations into r. It returns coverage numbers. In replay mode it only
+// re-executes the recorded history if it belongs to this search.
 func (r *Run) Explore(s Spec) Result {
+	if search, ids, ok := r.ReplayRequest(); ok {
+		if search == s.Name {
+			r.ReplayOps(s, ids)
+		}
+		return Result{}
+	}
 	if s.Workers == 0 {
 		s.Workers = runtime.NumCPU()
 		if w, err := strconv.Atoi(os.Getenv("VERIF_WORKERS")); err == nil && w > 0 {
